@@ -299,13 +299,37 @@ PROPS = {
 # ---------------------------------------------------------------------------
 
 def replay_tool():
-    exe = os.path.join(VERIF, 'replay/target/debug/replay')
-    src_newer = True
-    p = subprocess.run(['cargo', 'build', '--offline', '-q'], cwd=os.path.join(VERIF, 'replay'),
-                       capture_output=True, text=True, env=kani.env_offline())
+    """The replay tool links the crate under test.  For /repo itself it is built in place; for a
+    scratch tree (VERIF_REPO) a copy of the tool is built against that tree."""
+    src = os.path.join(VERIF, 'replay')
+    if os.path.realpath(REPO) == '/repo':
+        d = src
+    else:
+        import shutil
+        d = os.path.join(WORK, 'replay_tool')
+        os.makedirs(os.path.join(d, 'src'), exist_ok=True)
+        os.makedirs(os.path.join(d, '.cargo'), exist_ok=True)
+        for fn in os.listdir(os.path.join(src, 'src')):
+            shutil.copy(os.path.join(src, 'src', fn), os.path.join(d, 'src', fn))
+        shutil.copy(os.path.join(src, '.cargo/config.toml'), os.path.join(d, '.cargo/config.toml'))
+        with open(os.path.join(src, 'Cargo.toml')) as f:
+            t = f.read().replace('path = "/repo"', 'path = "%s"' % REPO)
+        with open(os.path.join(d, 'Cargo.toml'), 'w') as f:
+            f.write(t)
+        for fn in os.listdir(os.path.join(d, 'src')):
+            p = os.path.join(d, 'src', fn)
+            with open(p) as f:
+                t = f.read()
+            t2 = t.replace('include!("../../spec/', 'include!("%s/spec/' % VERIF)
+            if t2 != t:
+                with open(p, 'w') as f:
+                    f.write(t2)
+        if os.path.exists(os.path.join(REPO, 'Cargo.lock')):
+            shutil.copy(os.path.join(REPO, 'Cargo.lock'), os.path.join(d, 'Cargo.lock'))
+    p = subprocess.run(['cargo', 'build', '--offline', '-q'], cwd=d, capture_output=True, text=True, env=kani.env_offline())
     if p.returncode != 0:
-        raise Undecided('replay tool does not build against /repo:\n' + p.stderr[-3000:])
-    return exe
+        raise Undecided('replay tool does not build against %s:\n%s' % (REPO, p.stderr[-3000:]))
+    return os.path.join(d, 'target/debug/replay')
 
 
 def replay_finding(fid):
@@ -422,10 +446,14 @@ def write_replay(pid, unit_name, h, obs):
 def replay(pid, path):
     with open(path) as f:
         rec = json.load(f)
-    print(json.dumps(rec, indent=1)[:6000])
-    unit = U.UNITS.get(rec.get('unit'))
-    if rec.get('witness') and unit and unit.get('replay_witness'):
-        out = unit['replay_witness'](rec['witness'])
-        print(out)
-        return 1 if out.startswith('REPRODUCED') else 0
+    print(json.dumps({k: v for k, v in rec.items() if k != 'verifier_output'}, indent=1)[:6000])
+    if rec.get('witness') and rec.get('unit') == 'interp':
+        import tempfile
+        exe = replay_tool()
+        with tempfile.NamedTemporaryFile('w', suffix='.json', delete=False) as f:
+            json.dump(rec['witness'], f)
+        p = subprocess.run([exe, 'step', f.name], capture_output=True, text=True, timeout=600)
+        os.unlink(f.name)
+        print(p.stdout.strip())
+        return 1 if p.stdout.startswith('REPRODUCED') else 0
     return 1 if rec.get('reproduced_on_real_code') else 0
